@@ -9,6 +9,7 @@ Every redeemer's data contains one *marker* integer (MARK + attachment number) b
 in the decoded transaction bytes."""
 from __future__ import annotations
 
+import copy
 import hashlib
 from dataclasses import dataclass
 from typing import Dict, List
@@ -515,19 +516,46 @@ def gen(rng, force=None):
             ops_free.remove(o)
         assets.insert(rng.randint(0, len(assets)), [zspec, "7a", 0])
         ops_free.append({"op": "x_mint_set", "assets": assets})
-    # ---- variant: the same key UTxO is added twice
+    # ---- variant: the same UTxO is added more than once (it is one input of the body, whatever the route):
+    #   "key"    a key UTxO through add_input twice
+    #   "script" a script UTxO through add_input as well as add_script_input (either order after the shuffle)
+    #   "twice"  a Plutus script UTxO through add_script_input twice, the second time with another redeemer
+    #            (the per-UTxO bookkeeping is a dict: the redeemer of the later call is the one that counts)
     dup_input = None
-    if n_key and not zero_mint and f.get("dup_input", (not f) and rng.random() < 0.06):
-        j = 0
-        if f.get("dup_input"):          # corpus: the repeated input sorts before a script input
-            refs = [(u["txid"], u["ix"]) for u in utxos if u["id"].startswith("s")]
-            keyed = sorted((u for u in utxos if u["id"].startswith("kx")), key=lambda u: (u["txid"], u["ix"]))
-            if refs and (keyed[0]["txid"], keyed[0]["ix"]) < max(refs):
-                j = int(keyed[0]["id"][2:])
+    twice = None
+    dup_mode = (n_key and not zero_mint) and f.get("dup_input", (not f) and rng.random() < 0.06)
+    if dup_mode:
+        if dup_mode is True:
+            dup_mode = "key" if f else rng.choice(["key", "key", "script", "twice"])
+        s_ops = [o for o in ops_free if o["op"] == "x_script_input" and o["u"].startswith("s")]
+        if dup_mode == "twice":
+            s_ops = [o for o in s_ops if o.get("redeemer")]
+        if dup_mode != "key" and not s_ops:
+            dup_mode = "key"
+        if dup_mode == "key":
+            j = 0
+            if f.get("dup_input"):          # corpus: the repeated input sorts before a script input
+                refs = [(u["txid"], u["ix"]) for u in utxos if u["id"].startswith("s")]
+                keyed = sorted((u for u in utxos if u["id"].startswith("kx")), key=lambda u: (u["txid"], u["ix"]))
+                if refs and (keyed[0]["txid"], keyed[0]["ix"]) < max(refs):
+                    j = int(keyed[0]["id"][2:])
+            else:
+                j = rng.randrange(n_key)
+            dup_input = "kx%d" % j
+            ops_free.append({"op": "add_input", "u": dup_input})
         else:
-            j = rng.randrange(n_key)
-        dup_input = "kx%d" % j
-        ops_free.append({"op": "add_input", "u": dup_input})
+            # the repeated script input is the one that sorts first, so that it shifts the list positions of the others
+            by_id = {u["id"]: u for u in utxos}
+            o1 = min(s_ops, key=lambda o: (by_id[o["u"]]["txid"], by_id[o["u"]]["ix"]))
+            dup_input = o1["u"]
+            if dup_mode == "script":
+                ops_free.append({"op": "add_input", "u": dup_input})
+            else:
+                a1 = next(a for a in attach if a["kind"] == "spend" and a["u"] == dup_input and "marker" in a)
+                m2 = next_marker()
+                o1["_m"] = a1["marker"]
+                ops_free.append({**copy.deepcopy({k: v for k, v in o1.items() if k != "_m"}), "redeemer": red(m2), "_m": m2})
+                twice = a1
 
     # ---- withdrawals
     n_wd = f.get("n_wd", rng.choice([0, 0, 0, 1, 1, 2]))
@@ -632,7 +660,9 @@ def gen(rng, force=None):
         lo = max([i for i, p in enumerate(ops) if p.get("_c")] + [-1]) + 1
         pos = rng.randint(lo, len(ops))
         ops.insert(pos, {**o, "_c": 1})
-    ops = [{k: v for k, v in o.items() if k != "_c"} for o in ops]
+    if twice is not None:                   # the redeemer of the later add_script_input call is the one that counts
+        twice["marker"] = [o["_m"] for o in ops if "_m" in o][-1]
+    ops = [{k: v for k, v in o.items() if k not in ("_c", "_m")} for o in ops]
     if f.get("mixed_units") or (not f and rng.random() < 0.03):
         reds = [o for o in ops if o.get("redeemer")]
         if len(reds) >= 2:
@@ -785,8 +815,39 @@ def model_red(o):
     return [data_cbor(mk_data(r["data"])).hex(), str(u[0]), str(u[1])]
 
 
+def _policy_hex(p) -> str:
+    if isinstance(p, str) and len(p) == 56 and all(c in "0123456789abcdef" for c in p):
+        return p
+    return spec_hash(p).hex()
+
+
+def stored_mint(cur, assets, direct):
+    """the value a scenario's `mint` / `x_mint_set` op assigns to `builder.mint`, as insertion-ordered dicts
+    {policy hex: {name hex: qty}}: `x_mint_set` and the first `mint` store the MultiAsset as given (zero quantities
+    stay); a later `mint` stores `builder.mint + MultiAsset(assets)`, and `+` drops zero quantities and empty policies"""
+    new = {}
+    for p, n, q in assets:
+        new.setdefault(_policy_hex(p), {})[n] = int(q)
+    if direct or cur is None:
+        return new
+    res = {p: dict(a) for p, a in cur.items()}
+    for p, a in new.items():
+        acc = dict(res.get(p, {}))
+        for n, q in a.items():
+            acc[n] = acc.get(n, 0) + q
+        res[p] = {n: q for n, q in acc.items() if q != 0}
+    res = {p: {n: q for n, q in a.items() if q != 0} for p, a in res.items()}
+    return {p: a for p, a in res.items() if a}
+
+
+def model_mint(m):
+    """[[policy hex, [[name hex, qty], …]], …] for the driver"""
+    return [[p, [[n, str(q)] for n, q in a.items()]] for p, a in m.items()]
+
+
 def model_ops(sc, cx):
     out = []
+    mint = None
     for o in sc["ops"]:
         k = o["op"]
         if k == "add_input":
@@ -807,8 +868,8 @@ def model_ops(sc, cx):
         elif k == "cert":
             out.append({"k": "cert"})
         elif k in ("mint", "x_mint_set"):
-            for p, _, _ in o["assets"]:
-                out.append({"k": "mint", "p": spec_hash(p).hex()})
+            mint = stored_mint(mint, o["assets"], k == "x_mint_set")
+            out.append({"k": "mint_set", "m": model_mint(mint)})
         elif k == "withdraw":
             out.append({"k": "withdraw", "a": account_bytes(o).hex()})
         elif k == "x_withdrawals":
